@@ -106,6 +106,10 @@ func sweep(t *testing.T, prop string) {
 func TestC01Sweep(t *testing.T) { sweep(t, "C01") }
 func TestC08Sweep(t *testing.T) { sweep(t, "C08") }
 
+// TestC10Sweep: ordinary activity on entries with names of every length and
+// of awkward bytes never puts anything on Errors.
+func TestC10Sweep(t *testing.T) { sweep(t, "C10") }
+
 // TestC01Big: bursts of thousands of notifications handled in a few reads.
 func TestC01Big(t *testing.T) {
 	n := 600
